@@ -184,7 +184,13 @@ def tlc_batch(c, jobs, par=4):
     """jobs: [(key, cfg, workers, timeout, extra_args)] run concurrently, each in its own scratch dir"""
     def one(j):
         key, cfg, workers, timeout, args = j
-        return key, vlib.tlc(SPEC_DIR, "MC_DposLib", cfg, os.path.join(c.work, "tlc_" + key), workers=workers, timeout=timeout, args=args)
+        files = None
+        if REPAIRED[0] and not cfg.startswith("MC_DposLib_fix"):
+            # design exploration only (VERIF_C08_DESIGN=repaired): the same configuration with the repairs switched on
+            src = os.path.join(c.work, "repaired_" + cfg)
+            open(src, "w").write(open(os.path.join(SPEC_DIR, cfg)).read().replace("Fixes <- NoFix", "Fixes <- AllFixes"))
+            files = {cfg: src}
+        return key, vlib.tlc(SPEC_DIR, "MC_DposLib", cfg, os.path.join(c.work, "tlc_" + key), workers=workers, timeout=timeout, args=args, files=files)
     with concurrent.futures.ThreadPoolExecutor(max_workers=par) as ex:
         return dict(ex.map(one, jobs))
 
@@ -225,6 +231,10 @@ def sim_behaviours(c, res, cfg, tag, pre):
     return behs
 
 
+# VERIF_C08_DESIGN=repaired (used by hand only, to try the proposed patches): behaviours are generated from the model with
+# Fixes = AllFixes and replayed on the tree given by VERIF_REPO (a worktree carrying the patches); the as-coded scenarios are skipped
+REPAIRED = [False]
+
 # configurations of the code AS IT IS that must fail in the design: (key, cfg, violated property, what)
 ASCODED = [
     ("lazy", "MC_DposLib_lazy.cfg", "Final", "restart, then a longer branch from below the LIB is adopted (status attached lazily)"),
@@ -240,6 +250,7 @@ def run(c):
     T0[0] = time.time()
     rng = random.Random(c.seed)
     quick = c.tier == "quick"
+    REPAIRED[0] = os.environ.get("VERIF_C08_DESIGN") == "repaired"
     c.rule = ("a case is one step of one node of one replayed behaviour (state of the real DPoS status compared with the specification and the "
               "property evaluated on the real node) or one pairwise LIB comparison between two nodes; distinct = distinct (behaviour, node, step)")
     c.assumptions = ["blocks reach a node parents first", "all blocks valid and empty; BP set = genesis BP list",
@@ -258,7 +269,10 @@ def run(c):
         ("t4e", "MC_DposLib_T4e.cfg", "tree T4e (fork exactly at the LIB block): all properties"),
         ("t3w", "MC_DposLib_T3w.cfg", "tree T3w (chain longer than the rebuild window, fork at the tip), 1 restart: LibOnMain, Agreement, LibQuorum, RestoreEqualsRecompute"),
     ]
-    if not quick:
+    if REPAIRED[0]:
+        CLEAN = []
+        c.notes.append("VERIF_C08_DESIGN=repaired: model with Fixes = AllFixes against the tree " + vlib.REPO)
+    if not quick or REPAIRED[0]:
         CLEAN += [("fix4", "MC_DposLib_fix_T4.cfg", "REPAIRED design (attach+stale+mono), tree T4, 2 restarts: all properties"),
                   ("fix4s", "MC_DposLib_fix_T4s.cfg", "REPAIRED design, tree T4s, 1 restart: all properties"),
                   ("fix3w", "MC_DposLib_fix_T3w.cfg", "REPAIRED design, tree T3w, 1 restart: all properties"),
@@ -268,7 +282,7 @@ def run(c):
     jobs += [
         ("s3", "Sim_DposLib.cfg", 1, 900, ["-simulate", "file=%s/t,num=%d" % (simdir["s3"], nsim), "-depth", str(dsim), "-seed", str(c.seed * 7919 + 3)]),
         ("s4", "Sim_DposLib4.cfg", 1, 900, ["-simulate", "file=%s/t,num=%d" % (simdir["s4"], nsim), "-depth", str(dsim + 10), "-seed", str(c.seed * 7919 + 4)]),
-    ] + [(k, cfg, 1, 600, None) for (k, cfg, _, _) in ASCODED]
+    ] + [(k, cfg, 1, 600, None) for (k, cfg, _, _) in (ASCODED if not REPAIRED[0] else [])]
     if not quick:
         jobs.append(("genfull", "Gen_DposLib_full.cfg", 1, 1500, None))
         jobs.append(("simfix", "Sim_DposLib_fix.cfg", 2, 900, ["-simulate", "num=15000", "-depth", "70", "-seed", str(c.seed * 7919 + 5)]))
@@ -287,7 +301,7 @@ def run(c):
             if "Error:" in r.out:
                 raise vlib.Infra("simulation of the repaired design found an error:\n" + r.out[-3000:])
         scen = []
-        for (k, cfg, prop, what) in ASCODED:
+        for (k, cfg, prop, what) in (ASCODED if not REPAIRED[0] else []):
             r = R[k]
             c.add_tlc(r, "code AS IT IS, expected counterexample to %s: %s" % (prop, what))
             if r.violation != prop or not r.error_trace:
@@ -309,7 +323,7 @@ def run(c):
             gf, ntrf, nstf, totf = graph_behaviours(R["genfull"], "Gen_DposLib_full.cfg", "gen-full", rng, max_paths=1500)
             c.notes.append("Gen_DposLib_full: %d transitions, %d states, %d covering behaviours, %d replayed" % (ntrf, nstf, totf, len(gf)))
         _t("behaviours: %d scenario, %d+%d edge cover, %d+%d simulated, %d full-protocol edge cover" % (len(scen), len(g3), len(g4), len(s3), len(s4), len(gf)))
-        replay(c, exe, scen, "ascoded", nshards=len(scen))
+        replay(c, exe, scen, "ascoded", nshards=max(1, len(scen)))
         _t("as-coded scenarios replayed")
         replay(c, exe, g3 + g4 + s3 + s4 + gf, "main", nshards=8)
         _t("replayed")
